@@ -29,6 +29,7 @@ def shards(tier, seed):
     for fi in range(len(MP.corpus_helpers(tier))):
         for path in MP.PATHS:
             out.append(("helper", fi, path))
+    out += [("concurrent", mode, cut) for mode in ("tasks", "threads") for cut in range(4)]
     return out
 
 
@@ -54,6 +55,8 @@ def run_shard(desc, tier):
         for k, v in c.items():
             r.count(k, v)
         r.sample({"boundary": boundary, "parts": describe(parts), "body_len": len(body), "partitions_covered": f"2^{max(len(body) - 1, 0)} (+ empty chunks)"})
+    elif desc[0] == "concurrent":
+        concurrent(r, desc[1], desc[2])
     else:
         _, fi, path = desc
         parts, boundary, charset, pre, epi = MP.corpus_helpers(tier)[fi]
@@ -81,12 +84,49 @@ def run_shard(desc, tier):
     return r
 
 
+def concurrent(r, mode, cut):
+    """Two parses in progress at once (two requests served by one process): every interleaving of their chunk hand-overs; each
+    must return its own form. A text field of each body is split across chunks at `cut` different places."""
+    from ..core.explore import dfs
+
+    formA = [MP.part("t", None, b"AAAA-first|AAAA-second"), MP.part("u", "a.bin", b"\x00A-file\r\n")]
+    formB = [MP.part("t", None, "BBBB-é|BBBB-second".encode()), MP.part("v", None, b"B2")]
+    jobs = []
+    want = []
+    for form, boundary in ((formA, b"bdA"), (formB, b"bdB")):
+        body = MR.encode(form, boundary)
+        pos = body.index(b"|") - 1 + cut  # inside the first text field
+        chunks = [body[:pos], body[pos:pos + 9], body[pos + 9:]]
+        jobs.append((chunks, boundary, "utf-8"))
+        want.append(MR.expected_items(form))
+    run = (lambda prefix: MP.two_async_parses(prefix, jobs)) if mode == "tasks" else (lambda prefix: MP.two_thread_parses(prefix, jobs))
+    outcomes = set()
+
+    def on_exec(x):
+        r.count("evaluations")
+        r.count("traces")
+        r.count("transitions", len(x.choices))
+        res = x.obs["results"]
+        outcomes.add(repr(res))
+        if x.obs["stuck"] or res != want:
+            r.violation(f"concurrent-parses:{mode}", {"mode": "concurrent", "how": mode, "cut": cut, "schedule": list(x.choices)},
+                        f"two multipart parses in progress at once ({mode}), schedule {x.choices}: results {res!r:.300} expected {want!r:.300} (stuck={x.obs['stuck']})")
+    dfs(run, on_exec)
+    r.count("states", len(outcomes))
+    r.count("distinct_nontrivial")
+    r.sample({"concurrent": mode, "cut": cut, "chunks": [[len(c) for c in j[0]] for j in jobs]})
+
+
 def finish(merged, tier):
     return {"bounds": {"bfs_bodies": len(MP.corpus_bfs(tier)), "helper_forms": len(MP.corpus_helpers(tier)), "content_string_length": 3 if tier == "quick" else 5,
                        "boundaries": [b.decode("latin-1") for b in MP.BOUNDARIES]}}
 
 
 def replay(w):
+    if w["mode"] == "concurrent":
+        r = R()
+        concurrent(r, w["how"], w["cut"])
+        return bool(r.viol), {"violations": sorted(r.viol), "texts": [v[2][:300] for v in r.viol.values()]}
     if w["mode"] == "bfs":
         from baize.multipart import MultipartDecoder
         from baize.exceptions import HTTPException
